@@ -249,6 +249,26 @@ pub fn all_bundles<C: Cs>(ctx: &Ctx, st: &Setup<C>, r: &mut impl rand::RngCore, 
     v
 }
 
+/// sorted index over candidate secret values: all entries within `bound` of a query, by binary search
+pub struct SecretIndex {
+    v: Vec<(Integer, usize)>,
+}
+
+impl SecretIndex {
+    pub fn new<'a>(vals: impl Iterator<Item = (usize, &'a Integer)>) -> Self {
+        let mut v: Vec<(Integer, usize)> = vals.map(|(i, x)| (x.clone(), i)).collect();
+        v.sort();
+        SecretIndex { v }
+    }
+    /// indexes of the entries x with |q - x| < bound
+    pub fn near(&self, q: &Integer, bound: &Integer) -> Vec<usize> {
+        let lo = Integer::from(q - bound);
+        let hi = Integer::from(q + bound);
+        let start = self.v.partition_point(|e| e.0 <= lo);
+        self.v[start..].iter().take_while(|e| e.0 < hi).map(|e| e.1).collect()
+    }
+}
+
 /// Linear-combination attack on sibling responses (elements of the same response array share one challenge):
 /// (s_j - s_k) / c must not be the difference of two of the prover's secrets, and equal secrets must not produce
 /// equal responses. Returns (array field, divisor label, what is revealed).
@@ -265,6 +285,27 @@ pub fn sibling_difference_attack(b: &Bundle, challenges: &[(String, Integer)]) -
         }
     }
     let hid: Vec<&Integer> = b.hidden.iter().map(|(_, m)| m).collect();
+    // all differences m_a - m_b of two hidden attributes that are at least 2^64 in magnitude, indexed for lookup
+    let mut diffs: Vec<Integer> = vec![];
+    for a in 0..hid.len() {
+        for bb in 0..hid.len() {
+            if a != bb {
+                let dx = Integer::from(hid[a] - hid[bb]);
+                if dx.clone().abs() >= bound {
+                    diffs.push(dx);
+                }
+            }
+        }
+    }
+    let index = SecretIndex::new(diffs.iter().enumerate());
+    // challenges that can multiply the responses of a sibling array: the distinct values only
+    let mut chs: Vec<(&String, &Integer)> = vec![];
+    let mut seen_c = std::collections::HashSet::new();
+    for (cn, c) in challenges {
+        if *c != 0 && seen_c.insert(c.clone()) {
+            chs.push((cn, c));
+        }
+    }
     for (field, vals) in &groups {
         for j in 0..vals.len() {
             for k in 0..vals.len() {
@@ -274,23 +315,15 @@ pub fn sibling_difference_attack(b: &Bundle, challenges: &[(String, Integer)]) -
                 if vals[j] == vals[k] && j < k && vals[j].significant_bits() > 64 {
                     found.push((field.clone(), "equal-sibling-responses".to_string(), "equality-of-hidden-attributes".to_string()));
                 }
+                if diffs.is_empty() {
+                    continue;
+                }
                 let diff = Integer::from(vals[j] - vals[k]);
-                for (cn, c) in challenges {
-                    if *c == 0 {
-                        continue;
-                    }
-                    let q = Integer::from(&diff / c);
-                    for a in 0..hid.len() {
-                        for bb in 0..hid.len() {
-                            if a == bb {
-                                continue;
-                            }
-                            let dx = Integer::from(hid[a] - hid[bb]);
-                            if dx.clone().abs() >= bound && Integer::from(&q - &dx).abs() < bound {
-                                let cl: String = cn.split(':').next().unwrap().chars().map(|ch| if ch.is_ascii_digit() { 'i' } else { ch }).collect();
-                                found.push((field.clone(), format!("difference/challenge[{}]", cl), "difference-of-hidden-attributes".to_string()));
-                            }
-                        }
+                for (cn, c) in &chs {
+                    let q = Integer::from(&diff / *c);
+                    if !index.near(&q, &bound).is_empty() {
+                        let cl: String = cn.split(':').next().unwrap().chars().map(|ch| if ch.is_ascii_digit() { 'i' } else { ch }).collect();
+                        found.push((field.clone(), format!("difference/challenge[{}]", cl), "difference-of-hidden-attributes".to_string()));
                     }
                 }
             }
